@@ -105,6 +105,9 @@ func (m *Mem) Writes() []Op {
 	return out
 }
 
+// NewMemFile creates a file that already exists on the storage (Open reports exists=true).
+func NewMemFile(m *Mem, name string, data []byte) *MemFile { return &MemFile{m: m, Name: name, Data: data} }
+
 type MemFile struct {
 	m           *Mem
 	Name        string
